@@ -141,7 +141,21 @@ def rp(ob):
 
 def targets(tier='quick'):
     R = c05_registry()
-    return [Target('bath/diagonalisation', 'bath.Bath.__init__', scen_bath_h, post_bath, R, PROP, replay=rp)]
+    T = [Target('bath/diagonalisation', 'bath.Bath.__init__', scen_bath_h, post_bath, R, PROP, replay=rp)]
+    # TEMPO rotates the dk=0 influence tensor with the U (x) U* superoperators of the bath's transform,
+    # with and without degeneracy reduction (wire/basis-rotation)
+    from . import c01
+
+    def post_rot(ip, ctx, out):
+        before = len(ip.obligations)
+        c01.post_init(ip, ctx, out)
+        for ob in ip.obligations[before:]:
+            ob['name'] = ob['name'].replace('tempo/init-labels', 'wire/basis-rotation[TEMPO dk=0 tensor]')
+    RI = c01.init_registry()
+    for dg in (False, True):
+        T.append(Target('wire/basis-rotation[degeneracy_maps=%s]' % dg, 'backends.tempo_backend.BaseTempoBackend.initialize_mps_mpo',
+                        c01.scen_init(False, dg), post_rot, RI, PROP, replay=lambda ob: {'func': 'basis_covariance', 'inputs': {}}))
+    return T
 
 
 META = {'level': 'proof', 'explanation': '', 'trusted_base': [], 'clauses': []}
